@@ -16,7 +16,7 @@ import SleapVerif.Gen.TranslatedC16
 below pin the grids the code really uses by default to those lists
 (`gen_*_thresholds_eq`) and establish, about the generated lists, the side conditions under which
 the C16 theorems are applied: `perfect_AP` needs a non-empty recall grid inside `[0, 1]`;
-`AP_antitone_in_threshold` / `recall_antitone` turn into "AP and AR are non-increasing along the
+`AP_antitone_in_threshold` / `AR_antitone_in_threshold` turn into "AP and AR are non-increasing along the
 table" because the match grid is strictly increasing.
 -/
 
